@@ -37,7 +37,11 @@ def mk_ragged_handle(w, n, N, atom, numtype, indextype, bolabel='little'):
     ra._indices = vi
     ra._arrayinfo = {'len': n, 'size': symnp._prod((N,) + tuple(atom)), 'atom': tuple(atom), 'numtype': numtype,
                      'darrversion': darrversion(D), 'darrobject': 'RaggedArray'}
-    return ra
+
+    def donor():
+        put_ragged(D, w, '/w/donor/rag', [1, 2], numtype, bolabel, tuple(2 for _ in atom))
+        return RA.RaggedArray('/w/donor/rag')
+    return complete_stub(ra, donor)
 
 
 def expected_offered(lang, numtype, indextype, natom, vsize):
